@@ -34,6 +34,8 @@ type C16Op struct {
 	Doc  string `json:"doc,omitempty"` // handmade document
 	K    int    `json:"view_k,omitempty"`
 	Seed uint32 `json:"order_seed,omitempty"`
+	// Reuse (load): Load is called on the object in use instead of on a new one
+	Reuse bool `json:"same_object,omitempty"`
 }
 
 type C16Case struct {
@@ -98,6 +100,8 @@ func genC16(rt *rapid.T) C16Case {
 			op.Arg = rapid.IntRange(0, 5000).Draw(rt, "arg")
 		case "handmade":
 			op.Doc = rapid.SampledFrom(c16Docs).Draw(rt, "doc")
+		case "load":
+			op.Reuse = rapid.IntRange(0, 2).Draw(rt, "reuse") == 0
 		}
 		op.K = rapid.SampledFrom([]int{0, 1, 2, 3, 10, -1}).Draw(rt, "k")
 		op.Seed = rapid.Uint32Range(0, 16).Draw(rt, "oseed")
@@ -425,11 +429,14 @@ func runC16(c C16Case) *Outcome {
 			beh = append(beh, "h")
 		case "load":
 			fresh := history.NewSearchHistory(c16Path, c.Max)
+			if op.Reuse {
+				fresh = sh // Load on the object in use (it may hold entries the file does not): the file's content must replace them
+			}
 			var err error
 			if p := guard("load", func() { err = fresh.Load() }); p != nil {
 				return fail("load-panic", "step %d: Load panicked: %v", i, p)
 			}
-			log = append(log, fmt.Sprintf("load=%v", err != nil))
+			log = append(log, fmt.Sprintf("load(same object=%v)=%v", op.Reuse, err != nil))
 			sh = fresh
 			_, exists := disk.Files[c16Path]
 			if fileOurs && exists {
